@@ -86,6 +86,7 @@ type Enc struct {
 	con   *Contract
 	lines  []bodyLine // the encoding so far: declarations and assertions, each tagged with the block that emitted it
 	refFacts map[string]int
+	globalFacts map[string]bool
 	hooksFired map[string]bool // `at call` keys of the contract that matched some call site
 	curBlk int        // index of the top-level block being encoded (-1: before the body)
 	anc    map[int]map[int]bool
@@ -477,6 +478,10 @@ func (e *Enc) wf(term string, t types.Type, depth int) []string {
 		}
 	case *types.Interface:
 		out = append(out, fmt.Sprintf("(<= 0 (i_tag %s))", term))
+		if u.NumMethods() > 0 {
+			// a value of an interface type with methods never holds a plain string (which has no methods)
+			out = append(out, fmt.Sprintf("(not (= (i_tag %s) %d))", term, e.S.tagOf(types.Typ[types.String])))
+		}
 	}
 	return out
 }
@@ -554,7 +559,14 @@ func (e *Enc) constVal(c *ssa.Const) Val {
 		case u.Info()&types.IsFloat != 0:
 			return Val{T: floatLit(c.Value)}
 		case u.Info()&types.IsString != 0:
-			return Val{T: e.strConst(constant.StringVal(c.Value))}
+			n := e.strConst(constant.StringVal(c.Value))
+			for _, t := range e.taints() {
+				if t.Consts {
+					e.assertGlobal(e.taintApp(t, n))
+					e.note("taint " + t.Fn + ": every string constant of the package's code satisfies it (assumed: the constants are the generator's own text)")
+				}
+			}
+			return Val{T: n}
 		}
 	}
 	return Val{T: e.S.zero(t)}
@@ -779,4 +791,61 @@ func (e *Enc) fop(op string, args ...string) string {
 		return "(to_int (fp.to_real (fp.roundToIntegral RTZ " + a + ")))"
 	}
 	panic("fop " + op)
+}
+
+// assertGlobal: a fact that holds on every path (kept by every slice).
+func (e *Enc) assertGlobal(t string) {
+	line := fmt.Sprintf("(assert %s)\n", t)
+	if e.globalFacts == nil {
+		e.globalFacts = map[string]bool{}
+	}
+	if e.globalFacts[line] {
+		return
+	}
+	e.globalFacts[line] = true
+	e.lines = append(e.lines, bodyLine{text: line, blk: -1, assert: true})
+}
+
+// taints declared for the package of the function being verified.
+func (e *Enc) taints() []*Taint {
+	if e.fn == nil || e.fn.Pkg == nil {
+		return nil
+	}
+	var out []*Taint
+	for _, t := range e.P.specs.Taints {
+		if t.PkgPath == e.fn.Pkg.Pkg.Path() {
+			out = append(out, t)
+		}
+	}
+	return out
+}
+
+func (e *Enc) taintApp(t *Taint, term string) string {
+	sym := "specfn!" + t.Fn
+	e.S.declare(sym, fmt.Sprintf("(declare-fun %s (Str) Bool)", q(sym)))
+	return fmt.Sprintf("(%s %s)", q(sym), term)
+}
+
+// taintField: the value just loaded from field i of struct type st satisfies the taint predicates that list the field.
+func (e *Enc) taintField(st types.Type, i int, term string) {
+	ts := e.taints()
+	if len(ts) == 0 {
+		return
+	}
+	key, s := structKey(st)
+	if s == nil || i >= s.NumFields() || !isString(s.Field(i).Type()) {
+		return
+	}
+	// key is "<pkgpath>.<Type>": the directive names it "<pkgname>.<Type>.<Field>"
+	short := key
+	if j := strings.LastIndex(key, "/"); j >= 0 {
+		short = key[j+1:]
+	}
+	name := short + "." + s.Field(i).Name()
+	for _, t := range ts {
+		if t.Fields[name] {
+			e.assert(e.taintApp(t, term))
+			e.note("taint " + t.Fn + ": values of field " + name + " satisfy it (assumed)")
+		}
+	}
 }
